@@ -1,7 +1,10 @@
-(* C05 - Gamma is 1 - observed/expected over the requested chance samples.  Proofs in theories/Gamma/{GammaRunProofs,GammaKProofs}.v. *)
-From Coq Require Import List Arith ZArith QArith Qround Bool String.
+(* C05 - Gamma is 1 - observed/expected over the requested chance samples.  Proofs in theories/Gamma/{GammaRunProofs,GammaKProofs}.v.
+   The C05_src_* theorems at the end are re-proved on every run against genprops/GammaGen.v, the translation of GammaResults.gamma /
+   expected_disorder and of the sample-count rule of compute_gamma from the CURRENT continuum.py (harness/gen_gamma.py). *)
+From Coq Require Import List Arith ZArith QArith Qround Bool String Lia.
 From PGA Require Import Gamma.GammaK Gamma.GammaKProofs Gamma.GammaRun Gamma.GammaRunProofs Align.Tuples Align.Cover Align.Inst.
 From PGAgen Require Import ConstGen.
+From PGAprops Require Import GammaGen.
 Import ListNotations.
 
 (* the result holds exactly max(n_samples, N_required) chance alignments; none beyond n_samples when no precision level is given *)
@@ -43,4 +46,37 @@ Example C05_example :
   (* chance disorders 1, 2, 3: mean 2, variance 2/3; conf 2, precision 1/2: (2*2*(2/3))/(4*(1/4)) = 8/3 -> 3 samples required *)
   n_required 2 (1#2) [1; 2; 3]%Q = 3%Z /\ total_samples 2 2 (Some (1#2)) [1; 2]%Q = 2%Z /\ total_samples 2 1 (Some (1#10)) [1]%Q = 1%Z /\
   total_samples 2 2 (Some (1#4)) [1; 3]%Q = 16%Z.
+Proof. vm_compute. repeat split. Qed.
+
+(* ---------------------------------------------------------------------------------------------------------------------------------
+   Tie to the source (obligations a change of continuum.py can break; kept here so that they cannot take other properties' builds down). *)
+(* the body of GammaResults.gamma over the body of expected_disorder IS gamma_of *)
+Theorem C05_src_gamma obs chance : (gamma_src (expected_disorder_src chance) obs == gamma_of obs chance)%Q.
+Proof. unfold gamma_src, expected_disorder_src, gamma_of. cbv zeta. destruct (Qeq_bool obs 0); reflexivity. Qed.
+(* required_samples as the source computes it - ceil((std / mean * 1.96 / precision) ** 2) - IS n_required with the source's confidence constant,
+   for every std whose square is the population variance (np.std) *)
+Theorem C05_src_required_samples p ds sd : (sd * sd == qvar ds)%Q -> ~ (qmean ds == 0)%Q -> ~ (p == 0)%Q ->
+  (required_samples_src ds sd p == inject_Z (n_required confidence p ds))%Q.
+Proof.
+  intros Hsd Hm Hp. unfold required_samples_src, n_required, required_real. cbv zeta. fold confidence.
+  assert (E : (sd / qmean ds * confidence / p * (sd / qmean ds * confidence / p) ==
+               confidence * confidence * qvar ds / (qmean ds * qmean ds * p * p))%Q).
+  { rewrite <- Hsd. field. split; assumption. }
+  rewrite E. reflexivity.
+Qed.
+(* the test `required_samples > n_samples` and the size `required_samples - n_samples` of the second batch ARE second_batch *)
+Theorem C05_src_second_batch n p first :
+  (second_batch_src (inject_Z (Z.of_nat n)) (inject_Z (n_required confidence p first)) == inject_Z (second_batch confidence n (Some p) first))%Q.
+Proof.
+  unfold second_batch_src, second_batch, total_samples.
+  set (r := n_required confidence p first). set (m := Z.of_nat n).
+  destruct (Z.ltb_spec m r) as [Hlt|Hge].
+  - assert (E : Qle_bool (inject_Z r) (inject_Z m) = false).
+    { destruct (Qle_bool (inject_Z r) (inject_Z m)) eqn:E; [|reflexivity]. apply Qle_bool_iff in E. rewrite <- Zle_Qle in E. lia. }
+    rewrite E. cbn [negb]. unfold Z.sub. rewrite inject_Z_plus, inject_Z_opp. reflexivity.
+  - assert (E : Qle_bool (inject_Z r) (inject_Z m) = true) by (apply Qle_bool_iff; rewrite <- Zle_Qle; lia).
+    rewrite E. cbn [negb]. replace (m - m)%Z with 0%Z by lia. reflexivity.
+Qed.
+Example C05_src_example :
+  (gamma_src (expected_disorder_src [1; 3]) 1 == 1 # 2)%Q /\ (second_batch_src 2 16 == 14)%Q /\ (second_batch_src 30 16 == 0)%Q.
 Proof. vm_compute. repeat split. Qed.
